@@ -176,6 +176,7 @@ pub fn parse_runs(text: &str) -> Result<Vec<RunScript>, String> {
               "rw" => Policy::RandomWalk,
               "fixed" => Policy::Fixed(Vec::new()),
               "os" => Policy::Os,
+              "park" => Policy::Park,
               p if p.starts_with("pct") => Policy::Pct(p[3..].parse().map_err(|_| err("pct depth".to_string()))?),
               _ => return Err(err(format!("unknown policy {}", v))),
             }
